@@ -7,6 +7,7 @@ all `uint32` / `uint64` values.
 -/
 import EphVerif.Lemmas.C12
 import EphVerif.Lemmas.C12Prime
+import EphVerif.Lemmas.C12History
 import EphVerif.Proofs.C19
 
 namespace EphVerif.C12
@@ -176,6 +177,55 @@ theorem accepted_iff (A : Identity) (bits : Nat) (peer : List UInt8) (remotePubl
 theorem key_formula (A : Identity) (remotePublic : Nat) :
     sessionKey sha hmac A.scalar A.pub remotePublic =
     hmac (sha (Pow.beBytes 4 (sharedScalar A.scalar remotePublic))) (handshakeMaterial A.pub remotePublic) := rfl
+
+/-! ### C12.key_replaced — the n-th handshake for a peer id re-keys like the first
+
+`runCalls` is a node after an arbitrary history of inbound `perform_handshake` calls (any peers, public
+values, nonces, times: first attempts, failures, exact repeats inside the cooldown, the same peer id
+coming back with another key pair inside or outside the cooldown). -/
+
+/-- **C12.key_replaced** — after every history, the session key a node holds for a peer id is the one
+    derived from the public value of the **last accepted** handshake claiming that id (and there is
+    none iff no handshake for that id was ever accepted): `register_session_with_material` replaces. -/
+theorem key_replaced (self : Identity) (bits : Nat) (cooldown : Int) (calls : List Call) (peer : List UInt8) :
+    (runCalls sha hmac (NodeState.fresh self bits cooldown) calls).1.sessionKeyOf peer =
+      (lastAccepted none peer (runCalls sha hmac (NodeState.fresh self bits cooldown) calls).2).map
+        (fun pub => sessionKey sha hmac self.scalar self.pub pub) :=
+  runCalls_keys sha hmac calls _ _ (histInv_fresh sha hmac self bits cooldown) peer
+
+/-- hence, for any two nodes after any two histories: if the last handshake each accepted from the
+    other carried the other's **current** public value, both hold the same key — the one derived from
+    the current two public keys — however many earlier sessions with other key pairs there were -/
+theorem key_current (A B : Identity) (bitsA bitsB : Nat) (cdA cdB : Int) (callsA callsB : List Call)
+    (hA : A.scalar < 2 ^ 32) (hB : B.scalar < 2 ^ 32)
+    (h1 : lastAccepted none B.peerId (runCalls sha hmac (NodeState.fresh A bitsA cdA) callsA).2 = some B.pub)
+    (h2 : lastAccepted none A.peerId (runCalls sha hmac (NodeState.fresh B bitsB cdB) callsB).2 = some A.pub) :
+    (runCalls sha hmac (NodeState.fresh A bitsA cdA) callsA).1.sessionKeyOf B.peerId =
+      some (sessionKey sha hmac A.scalar A.pub B.pub) ∧
+    (runCalls sha hmac (NodeState.fresh B bitsB cdB) callsB).1.sessionKeyOf A.peerId =
+      (runCalls sha hmac (NodeState.fresh A bitsA cdA) callsA).1.sessionKeyOf B.peerId := by
+  rw [key_replaced, key_replaced, h1, h2]
+  exact ⟨rfl, congrArg some (key_scalars sha hmac A.scalar B.scalar hA hB).symm⟩
+
+/-- on a node without history the stateful model is the single-handshake model above -/
+theorem performHandshakeSt_fresh (self : Identity) (bits : Nat) (cooldown now : Int) (peer : List UInt8) (pub nonce : Nat) :
+    let r := performHandshakeSt sha hmac (NodeState.fresh self bits cooldown) now peer pub nonce
+    (if r.2 then r.1.sessionKeyOf peer else none) = performHandshake sha hmac self bits peer pub nonce := by
+  unfold performHandshakeSt performHandshake
+  simp only [repeatOfValidated, NodeState.fresh, Kex.get, Bool.false_eq_true, if_false]
+  by_cases hv : validatePublic pub = true
+  · by_cases hw : Pow.nodeVerifyHandshake sha bits ⟨peer, self.peerId, pub⟩ nonce = true
+    · simp [hv, hw, NodeState.sessionKeyOf, Kex.get, Kex.put]
+    · simp [hv, hw]
+  · simp [hv]
+
+-- non-vacuity: a peer id that comes back with another key pair is re-keyed (toy hash/MAC that keep their input)
+example :
+    let s := (runCalls (fun x => x) (fun k d => k ++ d) (NodeState.fresh ⟨[1], 3⟩ 0 5)
+      [⟨0, [2], Identity.pub ⟨[2], 4⟩, 0⟩, ⟨1, [2], Identity.pub ⟨[2], 7⟩, 0⟩]).1
+    s.sessionKeyOf [2] = some (sessionKey (fun x => x) (fun k d => k ++ d) 3 (Identity.pub ⟨[1], 3⟩) (Identity.pub ⟨[2], 7⟩)) ∧
+    s.sessionKeyOf [2] ≠ some (sessionKey (fun x => x) (fun k d => k ++ d) 3 (Identity.pub ⟨[1], 3⟩) (Identity.pub ⟨[2], 4⟩)) := by
+  decide
 
 end key
 
